@@ -75,7 +75,8 @@ def run(seed, ids):
     d = os.path.join(SEEDED, seed)
     meta = json.load(open(os.path.join(d, "meta.json")))
     ids = ids or [meta["property"]]
-    wt = "/tmp/seedrun-repo"
+    lane = os.environ.get("VERIF_LANE", "")          # a second lane (own worktree, own work-alt<lane>) can run next to the first
+    wt = "/tmp/seedrun-repo" + lane
     sh("git -C /repo worktree remove --force %s" % wt)
     rc, out = sh("git -C /repo worktree add -q --detach %s HEAD" % wt)
     if rc != 0:
